@@ -14,6 +14,8 @@ import (
 	"github.com/insomniacslk/dhcp/dhcpv4/nclient4"
 	"github.com/insomniacslk/dhcp/dhcpv6"
 	"github.com/insomniacslk/dhcp/dhcpv6/nclient6"
+	"github.com/insomniacslk/dhcp/iana"
+	"github.com/insomniacslk/dhcp/rfc1035label"
 	"github.com/insomniacslk/dhcp/verifshim/vs"
 )
 
@@ -26,9 +28,12 @@ const Tick2 = time.Millisecond
 type MatchKind int
 
 const (
-	MatchNil  MatchKind = iota // nil matcher: first datagram with the id
-	MatchGood                  // accepts datagrams flagged good
-	MatchNone                  // rejects everything
+	MatchNil     MatchKind = iota // nil matcher: first datagram with the id
+	MatchGood                     // accepts datagrams flagged good
+	MatchNone                     // rejects everything
+	MatchLibGood                  // the library's IsMessageType(type of the good datagrams, shared...) - shared is one slice with
+	// spare capacity that all calls of the execution pass as the variadic tail (it holds a type no datagram has)
+	MatchLibBad // IsMessageType(type of the bad datagrams, shared...)
 )
 
 type DgKind int
@@ -74,6 +79,7 @@ type ClientScenario struct {
 	CloseAt    int64 // ticks; -1: harness closes after all calls returned
 	Horizon    int64 // ticks; calls with Tries<0 are cancelled by the harness here (0 = none)
 	FailWrites []int // indices of WriteTo calls that fail with an injected error
+	FailKind   int   // 0: a plain error; 1: a timeout-typed *net.OpError wrapping os.ErrDeadlineExceeded (an expired write deadline)
 	CloseErr   bool  // the connection's Close reports an error (and closes)
 	Raw        bool  // DHCPv4 only: the client runs on nclient4.NewBroadcastUDPConn(<scripted conn>), the production stack (datagrams are IPv4/UDP frames)
 	Twin       bool  // a second client on its own connection has a call in flight with the SAME transaction id as call 0 and gets its own reply (serial 99): clients share nothing
@@ -91,7 +97,11 @@ func (s *ClientScenario) String() string {
 	if s.V6 {
 		fam = "v6"
 	}
-	fmt.Fprintf(&b, "%s %s T=%d n=%d cap=%d close=%d failwrites=%v calls=[", s.Name, fam, s.T, s.Tries, s.BufCap, s.CloseAt, s.FailWrites)
+	fk := ""
+	if s.FailKind == 1 {
+		fk = "(timeout-typed)"
+	}
+	fmt.Fprintf(&b, "%s %s T=%d n=%d cap=%d close=%d failwrites=%v%s calls=[", s.Name, fam, s.T, s.Tries, s.BufCap, s.CloseAt, s.FailWrites, fk)
 	if s.CloseErr {
 		b.WriteString("(conn.Close reports an error) ")
 	}
@@ -220,6 +230,18 @@ func buildDg(v6 bool, d DgSpec, serial int) []byte {
 			dhcpv4.WithGeneric(dhcpv4.OptionVendorSpecificInformation, bytes.Repeat([]byte{0x40 + byte(serial)}, 40)),
 			dhcpv4.WithGeneric(dhcpv4.OptionDomainName, []byte(fmt.Sprintf("dg%d.example.org", serial))))
 		p.OpCode = dhcpv4.OpcodeBootReply
+		if d.Kind == DgBad {
+			p.UpdateOption(dhcpv4.OptMessageType(dhcpv4.MessageTypeAck))
+		}
+		if d.Kind == DgWrongHW {
+			// "another hardware address" comes in three forms: a different one, none at all (hlen 0), a proper prefix of the client's
+			switch serial % 3 {
+			case 1:
+				p.ClientHWAddr = net.HardwareAddr{}
+			case 2:
+				p.ClientHWAddr = append(net.HardwareAddr{}, clientMAC[:3]...)
+			}
+		}
 		if d.Kind == DgRequestOp {
 			p.OpCode = dhcpv4.OpcodeBootRequest
 		}
@@ -238,6 +260,9 @@ func buildDg(v6 bool, d DgSpec, serial int) []byte {
 		return p.ToBytes()
 	}
 	m := &dhcpv6.Message{MessageType: dhcpv6.MessageTypeReply, TransactionID: xid6(d.ID)}
+	if d.Kind == DgBad {
+		m.MessageType = dhcpv6.MessageTypeAdvertise
+	}
 	m.AddOption(&dhcpv6.OptionGeneric{OptionCode: dhcpv6.OptionCode(serialOpt6), OptionData: tag})
 	// payload-carrying options of several kinds, distinct per datagram, so that a message that shares
 	// memory with the receive path (or with another datagram) shows
@@ -280,8 +305,10 @@ func (d DgSpec) accepts(c CallSpec) bool {
 	switch c.Match {
 	case MatchNil:
 		return true
-	case MatchGood:
+	case MatchGood, MatchLibGood:
 		return d.Kind == DgGood
+	case MatchLibBad:
+		return d.Kind == DgBad
 	}
 	return false
 }
@@ -307,6 +334,7 @@ func errClass(err error) string {
 // run state of one execution (rebuilt by the body on every execution)
 type clientRun struct {
 	h            *History
+	reqAfter     [][]byte // encoding of each call's request object once the call has returned
 	reqs         [][]byte // encoding of each call's request
 	dests        []string
 	thOf         []int           // thread id of each call
@@ -321,7 +349,7 @@ type clientRun struct {
 func (s *ClientScenario) body(out **clientRun) func() {
 	return func() {
 		h := &History{}
-		run := &clientRun{h: h, reqs: make([][]byte, len(s.Calls)), dests: make([]string, len(s.Calls)), thOf: make([]int, len(s.Calls)),
+		run := &clientRun{h: h, reqs: make([][]byte, len(s.Calls)), reqAfter: make([][]byte, len(s.Calls)), dests: make([]string, len(s.Calls)), thOf: make([]int, len(s.Calls)),
 			respAtReturn: make([][]byte, len(s.Calls)), respNow: make([]func() []byte, len(s.Calls))}
 		*out = run
 		conn := NewConn(h)
@@ -330,11 +358,17 @@ func (s *ClientScenario) body(out **clientRun) func() {
 		}
 		if len(s.FailWrites) > 0 {
 			conn.FailWrite = map[int]bool{}
+			if s.FailKind == 1 {
+				conn.FailWriteErr = errInjectedWriteTimeout
+			}
 			for _, k := range s.FailWrites {
 				conn.FailWrite[k] = true
 			}
 		}
 		T := time.Duration(s.T * Tick)
+		// one slice with spare capacity, handed to every IsMessageType call of this execution
+		shared4 := append(make([]dhcpv4.MessageType, 0, 4), dhcpv4.MessageTypeNak)
+		shared6 := append(make([]dhcpv6.MessageType, 0, 4), dhcpv6.MessageTypeReconfigure)
 		var send func(ctx context.Context, c CallSpec, idx int) (int, error)
 		var closeFn func() error
 		var twin func()
@@ -398,6 +432,15 @@ func (s *ClientScenario) body(out **clientRun) func() {
 				if c.Pkt > 0 {
 					p.UpdateOption(dhcpv4.OptHostName(strings.Repeat("h", c.Pkt*70)))
 				}
+				if c.Pkt == 3 {
+					// a request whose option values are not in any canonical order (printing it must not tidy it up)
+					p.UpdateOption(dhcpv4.OptParameterRequestList(dhcpv4.OptionRouter, dhcpv4.OptionBootfileName, dhcpv4.OptionSubnetMask, dhcpv4.OptionDomainNameServer, dhcpv4.OptionRouter))
+					p.UpdateOption(dhcpv4.OptClientArch(iana.EFI_X86_64, iana.INTEL_X86PC, iana.EFI_BC))
+					p.UpdateOption(dhcpv4.OptUserClass("zeta"))
+					p.UpdateOption(dhcpv4.OptRelayAgentInfo(dhcpv4.OptGeneric(dhcpv4.GenericOptionCode(9), []byte("z")), dhcpv4.OptGeneric(dhcpv4.GenericOptionCode(1), []byte("a"))))
+					p.UpdateOption(dhcpv4.OptDomainSearch(&rfc1035label.Labels{Labels: []string{"Zulu.Example.ORG", "alpha.example.org"}}))
+					p.UpdateOption(dhcpv4.OptGeneric(dhcpv4.GenericOptionCode(231), bytes.Repeat([]byte{0xff, 0x00, 0x7f}, 100)))
+				}
 				run.reqs[idx] = p.ToBytes()
 				dest := serverAddr
 				if c.Dest == 1 {
@@ -415,8 +458,13 @@ func (s *ClientScenario) body(out **clientRun) func() {
 					}
 				case MatchNone:
 					m = func(r *dhcpv4.DHCPv4) bool { return false }
+				case MatchLibGood:
+					m = nclient4.IsMessageType(dhcpv4.MessageTypeOffer, shared4...)
+				case MatchLibBad:
+					m = nclient4.IsMessageType(dhcpv4.MessageTypeAck, shared4...)
 				}
 				r, err := cl.SendAndRead(ctx, dest, p, m)
+				run.reqAfter[idx] = p.ToBytes()
 				if r == nil {
 					return -1, err
 				}
@@ -476,6 +524,17 @@ func (s *ClientScenario) body(out **clientRun) func() {
 				if c.Pkt > 0 {
 					p.AddOption(&dhcpv6.OptionGeneric{OptionCode: 65002, OptionData: bytes.Repeat([]byte{7}, c.Pkt*70)})
 				}
+				if c.Pkt == 3 {
+					// a request whose option values are not in any canonical order (printing it must not tidy it up)
+					p.AddOption(dhcpv6.OptRequestedOption(dhcpv6.OptionBootfileURL, dhcpv6.OptionSIPServersDomainNameList, dhcpv6.OptionDNSRecursiveNameServer, dhcpv6.OptionBootfileURL))
+					p.AddOption(dhcpv6.OptClientArchType(iana.EFI_X86_64, iana.INTEL_X86PC))
+					p.AddOption(&dhcpv6.OptUserClass{UserClasses: [][]byte{[]byte("zeta"), []byte("alpha")}})
+					p.AddOption(&dhcpv6.OptIANA{IaId: [4]byte{9, 9, 9, 9}, T1: 7 * time.Second, T2: 3 * time.Second, Options: dhcpv6.IdentityOptions{Options: dhcpv6.Options{
+						&dhcpv6.OptIAAddress{IPv6Addr: net.ParseIP("2001:db8::ff"), PreferredLifetime: 9 * time.Second, ValidLifetime: 5 * time.Second},
+						&dhcpv6.OptIAAddress{IPv6Addr: net.ParseIP("2001:db8::1"), PreferredLifetime: 1 * time.Second, ValidLifetime: 2 * time.Second}}}})
+					p.AddOption(dhcpv6.OptElapsedTime(655350 * time.Millisecond))
+					p.AddOption(&dhcpv6.OptFQDN{Flags: 1, DomainName: &rfc1035label.Labels{Labels: []string{"Zulu.Example.ORG"}}})
+				}
 				run.reqs[idx] = p.ToBytes()
 				dest := serverAddr6
 				if c.Dest == 1 {
@@ -493,8 +552,13 @@ func (s *ClientScenario) body(out **clientRun) func() {
 					}
 				case MatchNone:
 					m = func(r *dhcpv6.Message) bool { return false }
+				case MatchLibGood:
+					m = nclient6.IsMessageType(dhcpv6.MessageTypeReply, shared6...)
+				case MatchLibBad:
+					m = nclient6.IsMessageType(dhcpv6.MessageTypeAdvertise, shared6...)
 				}
 				r, err := cl.SendAndRead(ctx, dest, p, m)
+				run.reqAfter[idx] = p.ToBytes()
 				if r == nil {
 					return -1, err
 				}
@@ -888,6 +952,9 @@ func (s *ClientScenario) checkClient(run *clientRun, ex *vs.Exec) (violation, ou
 				at := cv.inv.T + T*((int64(1)<<uint(k))-1)
 				if tx.T != at {
 					return fail("S-instant", fmt.Sprintf("call %d transmission %d at t=%d, schedule says t=%d", ci, k+1, tx.T, at))
+				}
+				if run.reqAfter[ci] != nil && !bytes.Equal(run.reqAfter[ci], run.reqs[ci]) {
+					return fail("S-request-changed", fmt.Sprintf("call %d: the caller's request object encodes differently after the call than before it", ci))
 				}
 				if !bytes.Equal(tx.W.Data, run.reqs[ci]) {
 					return fail("S-bytes", fmt.Sprintf("call %d transmission %d differs from the request's encoding (%d vs %d bytes)", ci, k+1, len(tx.W.Data), len(run.reqs[ci])))
